@@ -53,7 +53,8 @@ func (z *ZodLiteral[T, R]) withCheck(check core.ZodCheck) *ZodLiteral[T, R] {
 // validateLiteral ensures the value is one of the allowed literal values.
 func (z *ZodLiteral[T, R]) validateLiteral(value T, chks []core.ZodCheck, ctx *core.ParseContext) (T, error) {
 	if !z.Contains(value) {
-		return value, issues.CreateInvalidTypeError(core.ZodTypeLiteral, value, ctx)
+		// carry the schema so that its own message (Literal("a", "must be a")) is consulted
+		return value, issues.CreateInvalidTypeErrorWithInst(core.ZodTypeLiteral, value, ctx, &z.internals.ZodTypeInternals)
 	}
 	return engine.ApplyChecks(value, chks, ctx)
 }
@@ -274,6 +275,11 @@ func newZodLiteralFromDef[T comparable, R any](def *ZodLiteralDef[T]) *ZodLitera
 		}
 	}
 	internals.Values = values
+
+	// the message given to the constructor, as every other type's constructor keeps it
+	if def.Error != nil {
+		internals.Error = def.Error
+	}
 
 	return &ZodLiteral[T, R]{internals: internals}
 }
